@@ -114,7 +114,7 @@ func rhsKind(info *types.Info, e ast.Expr, self *types.Var) string {
 	isSelf := func(x ast.Expr) bool { return self != nil && selField(info, x) == self }
 	switch x := e.(type) {
 	case *ast.Ident:
-		return "var:" + x.Name
+		return "var:" + exprShape(info, x)
 	case *ast.SelectorExpr:
 		if fv := selField(info, x); fv != nil {
 			return "field:" + fv.Name()
@@ -211,12 +211,53 @@ func exprShape(info *types.Info, e ast.Expr) string {
 		if tv, ok := info.Types[x]; ok && tv.Value != nil {
 			return tv.Value.ExactString()
 		}
+		// locals and parameters are rendered by kind, never by name (a rename must not change a shape)
+		if v, ok := info.ObjectOf(x).(*types.Var); ok && !v.IsField() {
+			switch v.Kind() {
+			case types.ParamVar:
+				return "$param"
+			case types.RecvVar:
+				return "$recv"
+			case types.ResultVar:
+				return "$result"
+			case types.LocalVar:
+				if k := rangeVarKinds[v]; k != "" {
+					return k
+				}
+				return "$local"
+			}
+		}
 		return x.Name
 	}
 	if tv, ok := info.Types[e]; ok && tv.Value != nil {
 		return tv.Value.ExactString()
 	}
 	return types.ExprString(e)
+}
+
+// rangeVarKinds: "$key" / "$val" for the variables bound by range statements (filled when the program is loaded).
+var rangeVarKinds = map[*types.Var]string{}
+
+func indexRangeVars(p *Prog) {
+	for _, pk := range p.Pkgs {
+		for _, f := range pk.Syntax {
+			ast.Inspect(f, func(n ast.Node) bool {
+				if r, ok := n.(*ast.RangeStmt); ok && r.Tok == token.DEFINE {
+					if id, ok := r.Key.(*ast.Ident); ok {
+						if v, ok := pk.TypesInfo.Defs[id].(*types.Var); ok {
+							rangeVarKinds[v] = "$key"
+						}
+					}
+					if id, ok := r.Value.(*ast.Ident); ok {
+						if v, ok := pk.TypesInfo.Defs[id].(*types.Var); ok {
+							rangeVarKinds[v] = "$val"
+						}
+					}
+				}
+				return true
+			})
+		}
+	}
 }
 
 // checkWrites: every write site of field is allowed by the table fn -> kinds.
